@@ -13,6 +13,7 @@
 -/
 import DymVerif.Lemmas.IroSolvent
 import DymVerif.Lemmas.IroVestInv
+import DymVerif.Lemmas.GenEqIro
 namespace DymVerif.C13
 open DymVerif DymVerif.Iro
 
@@ -311,6 +312,14 @@ theorem exact_spend_tight_counterexample :
   simp only [demoT, Option.some.injEq] at h
   subst h
   simp only [demoI]; omega
+
+/-- the same witness, stated about the function the source CURRENTLY has (`Gen.Iro.…` is regenerated
+    from `BondingCurve.TokensForExactInAmount` on every run; 18 supply decimals, 6 liquidity decimals) -/
+theorem exact_spend_tight_counterexample_current_source :
+    Gen.Iro.tokensForExactInAmount demoT 18 6 1000000000000000000 1000000 = some 1000000 ∧
+    Gen.Iro.cost (fun d => ⟨demoI d.raw⟩) 18 6 1000000000000000000 (1000000000000000000 + 1000000) = 0 := by
+  rw [GenEq.iro_tokensForExactIn_eq, GenEq.iro_cost_eq]
+  exact ⟨exact_spend_tight_counterexample.2.1, exact_spend_tight_counterexample.2.2.1⟩
 
 example : NewtonLowerDec demoI demoT 0 ∧ tokensForExactIn demoT 18 1000000000000000000 5 = some 5 := by
   refine ⟨exact_spend_tight_counterexample.1, by decide⟩
